@@ -13,6 +13,7 @@ const (
 	h_fix
 	h_state
 	h_end
+	h_replace
 )
 
 type heapRequest struct {
@@ -29,6 +30,11 @@ type iterData struct {
 type pushData struct {
 	bar  *Bar
 	sync bool
+}
+
+type replaceData struct {
+	old *Bar
+	bar *Bar
 }
 
 type fixData struct {
@@ -51,6 +57,17 @@ func (m heapManager) run() {
 			data := req.data.(pushData)
 			heap.Push(&bHeap, data.bar)
 			sync = sync || data.sync
+		case h_replace:
+			data := req.data.(replaceData)
+			if !data.old.popped {
+				// same place on screen as the finished bar, which leaves if it is still there
+				data.bar.priority = data.old.priority
+				if data.old.index >= 0 {
+					heap.Remove(&bHeap, data.old.index)
+				}
+			}
+			heap.Push(&bHeap, data.bar)
+			sync = true
 		case h_sync:
 			if sync || len != bHeap.Len() {
 				pMatrix = make(map[int][]chan int)
@@ -129,6 +146,11 @@ func (m heapManager) sync(drop <-chan struct{}) {
 func (m heapManager) push(b *Bar, sync bool) {
 	data := pushData{b, sync}
 	m <- heapRequest{cmd: h_push, data: data}
+}
+
+func (m heapManager) replace(old, b *Bar) {
+	data := replaceData{old, b}
+	m <- heapRequest{cmd: h_replace, data: data}
 }
 
 func (m heapManager) iter(drop <-chan struct{}, iter, iterPop chan<- *Bar) {
